@@ -3,7 +3,10 @@ trees and a real dependency DB, translation to/from the Lean driver (model "clea
 
 A *case* is a JSON dict:
   tasks   : list in definition order; a task's *name* is its index.  Each: label, task_dep [idx], setup [idx],
-            subtask_of idx|None, targets [relative paths], kind none|targets|act|actdry.
+            subtask_of idx|None, targets [relative paths], kind none|targets|actions (+ `actions`: list of
+            {type: aware|plain|cmd, eff: None|['rm', path]|['mk', top-level name]}: python callable with / without a
+            `dryrun` parameter, shell command; each records that it ran and really removes / creates the file).
+            Old seeds may say kind act / actdry (= one plain / one aware action without effect).
             A group (a task that has sub-tasks) is directly followed by its sub-tasks and its task_dep ends with them
             (that is what doit's loader produces); `task_dep` is the list *after* loading.
   pos, defaults (None | [str]), cleandep, cleanall, dryrun, forget : the command line / DOIT_CONFIG
@@ -31,7 +34,7 @@ def _on_alarm(signum, frame):
     raise CaseTimeout()
 
 
-KINDS = ['none', 'targets', 'act', 'actdry']
+KINDS = ['none', 'targets', 'actions']
 DBNAME = {'json': 'db.json', 'dbm': 'db.dbm', 'sqlite3': 'db.sqlite'}
 
 
@@ -73,7 +76,43 @@ def own_task_dep(tasks, i):
 # ----------------------------------------------------------------------------------------------
 # the implementation side
 
-def build_namespace(case, log, out):
+def norm_case(case):
+    """old-style kinds -> action lists (in place on a copy)"""
+    c = dict(case)
+    tasks = []
+    for t in case['tasks']:
+        t = dict(t)
+        if t['kind'] == 'act':
+            t['kind'], t['actions'] = 'actions', [{'type': 'plain', 'eff': None}]
+        elif t['kind'] == 'actdry':
+            t['kind'], t['actions'] = 'actions', [{'type': 'aware', 'eff': None}]
+        elif t['kind'] == 'actions':
+            t['actions'] = [{'type': a['type'], 'eff': a.get('eff')} for a in t.get('actions', [])]
+        else:
+            t.pop('actions', None)
+        tasks.append(t)
+    c['tasks'] = tasks
+    return c
+
+
+def _apply_eff(eff):
+    if not eff:
+        return
+    if eff[0] == 'rm':
+        if os.path.isfile(eff[1]):
+            os.remove(eff[1])
+    elif eff[0] == 'mk':
+        if not os.path.exists(eff[1]):
+            open(eff[1], 'a').close()
+
+
+def _shell_eff(eff):
+    if not eff:
+        return 'true'
+    return ('rm -f %s' if eff[0] == 'rm' else 'touch %s') % eff[1]
+
+
+def build_namespace(case, log, out, cmdlog='/dev/null'):
     """dict of task creators for ModuleTaskLoader.  All creators come from one `def` so that the loader's sort by
     line number keeps the insertion (= definition) order."""
     tasks = case['tasks']
@@ -84,15 +123,31 @@ def build_namespace(case, log, out):
             return {'v': i}
         return act
 
-    def clean_plain(i):
+    def clean_plain(i, k, eff):
         def clean_fn():
-            log.append(('ran', i, False, len(out.getvalue())))
+            log.append(('ran', i, k, False, len(out.getvalue())))
+            _apply_eff(eff)
+        clean_fn.__qualname__ = clean_fn.__name__ = 'cleanact_%d_%d' % (i, k)
         return clean_fn
 
-    def clean_dry(i):
+    def clean_dry(i, k, eff):
         def clean_fn(dryrun):
-            log.append(('ran', i, bool(dryrun), len(out.getvalue())))
+            log.append(('ran', i, k, bool(dryrun), len(out.getvalue())))
+            if not dryrun:
+                _apply_eff(eff)
+        clean_fn.__qualname__ = clean_fn.__name__ = 'cleanact_%d_%d' % (i, k)
         return clean_fn
+
+    def clean_list(i):
+        res = []
+        for k, a in enumerate(tasks[i].get('actions', [])):
+            if a['type'] == 'aware':
+                res.append(clean_dry(i, k, a.get('eff')))
+            elif a['type'] == 'plain':
+                res.append(clean_plain(i, k, a.get('eff')))
+            else:
+                res.append('echo %d %d >> %s; %s' % (i, k, cmdlog, _shell_eff(a.get('eff'))))
+        return res
 
     def task_dict(i, name_field):
         t = tasks[i]
@@ -108,10 +163,8 @@ def build_namespace(case, log, out):
             d['targets'] = list(t['targets'])
         if t['kind'] == 'targets':
             d['clean'] = True
-        elif t['kind'] == 'act':
-            d['clean'] = [clean_plain(i)]
-        elif t['kind'] == 'actdry':
-            d['clean'] = [clean_dry(i)]
+        elif t['kind'] == 'actions':
+            d['clean'] = clean_list(i)
         return d
 
     def make_creator(i):
@@ -181,25 +234,29 @@ def read_db(backend, path, labels):
 
 
 def invocations(events):
-    """the Task.clean invocations that can be seen in an event list: a new one starts at every `executing`
-    (one action per task), when the task changes, or when a `clean: True` task reports a path a second time
-    (one invocation visits each target once; the order inside an invocation is not assumed here)"""
-    order, seen = [], set()
+    """the Task.clean invocations that can be seen in an event list: a new one starts when the task changes, when
+    the index of an announced action does not increase, or when a `clean: True` task reports a path a second time
+    (one invocation visits each action / target once; the order of targets inside an invocation is not assumed)"""
+    order, seen, last_k = [], set(), None
     for e in events:
-        if e[0] == 'ran':
+        if e[0] in ('ran', 'cmd'):
             continue
         if e[0] == 'executing':
-            order.append(e[1])
-            seen = set()
-        else:
-            if not order or order[-1] != e[1] or e[2] in seen:
+            if not order or order[-1] != e[1] or last_k is None or e[2] <= last_k:
                 order.append(e[1])
                 seen = set()
+            last_k = e[2]
+        else:
+            if not order or order[-1] != e[1] or e[2] in seen or last_k is not None:
+                order.append(e[1])
+                seen = set()
+            last_k = None
             seen.add(e[2])
     return order
 
 
 LINE = re.compile(r"^(.*?) - (executing|removing file|removing dir|cannot remove \(it is not empty\)) '(.*)'$")
+ACTNO = re.compile(r"cleanact_(\d+)_(\d+)|Cmd: echo (\d+) (\d+) >>")
 
 
 def doit_main(ns, argv):
@@ -259,7 +316,8 @@ def run_impl(case):
         class OutProxy(object):
             def getvalue(self):
                 return holder['out'].getvalue() if 'out' in holder else ''
-        ns = build_namespace(case, log, OutProxy())
+        cmdlog = os.path.join(root, 'cmdlog')
+        ns = build_namespace(case, log, OutProxy(), cmdlog)
         ns['DOIT_CONFIG'] = dict(cfg)
         from doit.doit_cmd import DoitMain
         from doit.cmd_base import ModuleTaskLoader
@@ -285,12 +343,21 @@ def run_impl(case):
                 t = lab2i[m.group(1)]
                 tag = {'executing': 'executing', 'removing file': 'rm-file', 'removing dir': 'rm-dir',
                        'cannot remove (it is not empty)': 'not-empty'}[m.group(2)]
-                evs.append((end, 0, [tag, t] if tag == 'executing' else [tag, t, m.group(3)]))
+                if tag == 'executing':
+                    mm = ACTNO.search(m.group(3))
+                    k = int(mm.group(2) or mm.group(4)) if mm else -1
+                    evs.append((end, 0, [tag, t, k]))
+                else:
+                    evs.append((end, 0, [tag, t, m.group(3)]))
             elif line.strip():
                 junk.append(line[:200])
             pos = end
-        for (_, t, dry, at) in log:
-            evs.append((at, 1, ['ran', t, dry]))
+        for (_, t, k, dry, at) in log:
+            evs.append((at, 1, ['ran', t, k, dry]))
+        obs['cmds'] = []
+        if os.path.exists(cmdlog):
+            with open(cmdlog) as fh:
+                obs['cmds'] = [['cmd'] + [int(x) for x in line.split()] for line in fh if line.strip()]
         evs.sort(key=lambda e: (e[0], e[1]))
         obs['events'] = [e[2] for e in evs]
         obs['order'] = invocations(obs['events'])
@@ -325,7 +392,8 @@ def run_impl(case):
 def to_req(case, obs=None):
     req = {'model': 'clean',
            'tasks': [{'label': t['label'], 'task_dep': t['task_dep'], 'setup': t['setup'],
-                      'subtask_of': t.get('subtask_of'), 'targets': t['targets'], 'kind': t['kind']}
+                      'subtask_of': t.get('subtask_of'), 'targets': t['targets'], 'kind': t['kind'],
+                      'actions': t.get('actions', [])}
                      for t in case['tasks']],
            'pos': case['pos'], 'defaults': case.get('defaults'),
            'cleandep': bool(case.get('cleandep')), 'cleanall': bool(case.get('cleanall')),
@@ -337,7 +405,7 @@ def to_req(case, obs=None):
     return req
 
 
-def model_order_seen(ans):
+def model_order_seen(ans):  # noqa
     """the model's order restricted to tasks with visible behaviour (as the implementation's is)"""
     return invocations(ans.get('events', []))
 
@@ -351,8 +419,12 @@ def compare(case, obs, ans):
         return diffs
     if ans.get('oof'):
         diffs.append('model ran out of fuel')
-    if obs['events'] != ans['events']:
-        diffs.append('events: impl %s model %s' % (obs['events'], ans['events']))
+    m_events = [e for e in ans['events'] if e[0] != 'cmd']
+    m_cmds = [e for e in ans['events'] if e[0] == 'cmd']
+    if obs['events'] != m_events:
+        diffs.append('events: impl %s model %s' % (obs['events'], m_events))
+    if obs.get('cmds', []) != m_cmds:
+        diffs.append('shell clean actions executed: impl %s model %s' % (obs.get('cmds'), m_cmds))
     for k in ('files', 'dirs', 'db'):
         if sorted(obs[k]) != sorted(ans[k]):
             diffs.append('%s: impl %s model %s' % (k, obs[k], ans[k]))
@@ -380,18 +452,23 @@ def monitor(case, obs, ans):
         failed.append('effects: files/directories/DB after clean are not what the statement allows')
     if not obs.get('db_survivors_intact', True):
         failed.append('saved state of a task that was not forgotten changed')
-    # each clean action called at most once, with the dry-run flag of the command line; never on a dry run unless it asks
-    ran = [e for e in obs['events'] if e[0] == 'ran']
-    if len(set(e[1] for e in ran)) != len(ran):
-        failed.append('a clean action was called twice')
+    # per action: executed at most once; on a dry run only a callable that takes `dryrun` runs, and is told True;
+    # on a real clean every announced action runs exactly once (python ones told False)
+    tasks = case['tasks']
+    ran = [e for e in obs['events'] if e[0] == 'ran'] + list(obs.get('cmds', []))
+    keys = [(e[1], e[2]) for e in ran]
+    if len(set(keys)) != len(keys):
+        failed.append('a clean action was executed twice')
+    dry = bool(case.get('dryrun'))
     for e in ran:
-        kind = case['tasks'][e[1]]['kind']
-        if case.get('dryrun') and kind != 'actdry':
-            failed.append('clean action executed on a dry run')
-        if kind == 'actdry' and e[2] != bool(case.get('dryrun')):
+        acts = tasks[e[1]].get('actions', []) if e[1] < len(tasks) else []
+        typ = acts[e[2]]['type'] if 0 <= e[2] < len(acts) else '?'
+        if dry and typ != 'aware':
+            failed.append('a clean action that does not take `dryrun` (%s #%d of %s) was executed on a dry run'
+                          % (typ, e[2], tasks[e[1]]['label']))
+        if e[0] == 'ran' and typ == 'aware' and e[3] != dry:
             failed.append('clean action got a wrong dryrun value')
-    if not case.get('dryrun'):
-        want = set(t for t in set(obs['order']) if case['tasks'][t]['kind'] in ('act', 'actdry'))
-        if set(e[1] for e in ran) != want:
-            failed.append('announced clean actions and executed clean actions differ')
+    announced = [(e[1], e[2]) for e in obs['events'] if e[0] == 'executing']
+    if not dry and sorted(set(announced)) != sorted(set(keys)):
+        failed.append('announced clean actions and executed clean actions differ')
     return failed
